@@ -23,7 +23,7 @@ RULE = ("cases = (declared graph, root, topological, checkCycles) listings, (dec
         "with optional edges, explicit versions of declared and undeclared versions, two versions of one product, "
         "versions that are string prefixes of one another (1.2 / 1.2.11 / 1.20, 1 / 10 / 1.0, 2.0 / 2.0+1 / 2.0-rc1) each with a user "
         "of its own and queried one by one together with undeclared beginnings and continuations, "
-        "names without a current version, unresolvable names, -j and unsetupRequired lines, products declared without a "
+        "names without a current version, unresolvable names, -j, --external and unsetupRequired lines, products declared without a "
         "table file or with a table file missing on disk, plus an exhaustive family "
         "(4 products, every subset of 3 candidate lines per table: 4096 graphs; all of them in the thorough tier, a "
         "seed-dependent slice of 30 otherwise); a listing is "
@@ -64,6 +64,7 @@ def gen_graph(rng, wide=False):
     p_uns = 0.15 if rng.random() < 0.12 else 0.0
     p_j = rng.choice([0.15, 0.3]) if rng.random() < 0.3 else 0.0
     p_missing = 0.25 if (p_uns == 0.0 and rng.random() < 0.1) else 0.0
+    p_skip = 0.2 if rng.random() < 0.15 else 0.0          # table lines with --external
     p_expl = rng.choice([0.0, 0.3, 0.6])
     versions = {}
     for m in names:
@@ -100,6 +101,8 @@ def gen_graph(rng, wide=False):
                     else:
                         ver = None
                     deps.append({"k": "opt" if rng.random() < 0.25 else "req", "n": t, "v": ver, "j": rng.random() < p_j})
+                    if p_skip and rng.random() < p_skip:
+                        deps[-1]["external"] = True
             if rng.random() < p_unres:
                 deps.insert(rng.randint(0, len(deps)), {"k": rng.choice(["req", "opt"]), "n": "zz", "v": rng.choice([None, None, "1"]), "j": False})
             if deps and rng.random() < p_uns:
@@ -218,8 +221,8 @@ class Resolved:
             node = (key[0], key[1], True)
             out = []
             for d in p["deps"]:
-                if d["k"] in ("unreq", "unopt"):
-                    continue
+                if d["k"] in ("unreq", "unopt") or d.get("external"):
+                    continue            # --external lines denote nothing for a listing
                 v = d["v"] if d["v"] else self.cur.get(d["n"])
                 t = (d["n"], v, True) if v is not None and (d["n"], v) in self.decl else (d["n"], d["v"], False)
                 out.append((t, bool(d.get("j")), d["k"] == "opt"))
@@ -574,6 +577,8 @@ def evaluate(ctx, graphs, ncli=2, corpus=False):
             ctx.hist("graph:has_product_without_table")
         if any(p.get("missing") for p in g["products"]):
             ctx.hist("graph:has_missing_table_file")
+        if any(d.get("external") for p in g["products"] for d in p["deps"]):
+            ctx.hist("graph:has_skipped_lines")
         byn = {}
         for p in g["products"]:
             byn.setdefault(p["name"], []).append(p["version"])
